@@ -488,6 +488,44 @@ class Body:
         return None
 
 
+def iter_operands(body):
+    """Yield every operand (JSON form) occurring in statements and terminators."""
+    def from_rv(rv):
+        k = rv[0]
+        if k in ("use", "repeat"):
+            yield rv[1]
+        elif k == "cast":
+            yield rv[2]
+        elif k == "bin":
+            yield rv[2]
+            yield rv[3]
+        elif k == "un":
+            yield rv[2]
+        elif k == "agg":
+            for o in rv[2]:
+                yield o
+    for blk in body.blocks:
+        for st in blk["s"]:
+            if st[0] == "=":
+                yield from from_rv(st[2])
+        t = blk["t"]
+        for a in t.get("args") or []:
+            yield a
+        if t["k"] == "switch":
+            yield t["d"]
+        if t["k"] == "assert":
+            yield t["cond"]
+        if t["k"] == "yield":
+            yield t["v"]
+        if t.get("fnop"):
+            yield t["fnop"]
+
+
+def const_defs(body):
+    """def-paths of all named constants referenced by the body."""
+    return [o[3] for o in iter_operands(body) if o and o[0] == "k" and o[3]]
+
+
 def _tupl(x):
     if isinstance(x, list):
         return tuple(_tupl(i) for i in x)
